@@ -9,6 +9,8 @@
 #include <engine/verif.h>
 #include <kits/mempoolsim.h>
 
+#include <hash.h>
+
 #include <set>
 
 using namespace verif;
@@ -32,6 +34,7 @@ struct Hist {
     bool reorg_with_sensitive{false};
     int reorgs{0}, maxdepth{0};
     size_t max_pool{0};
+    uint256 last_block_check_key; //!< (tip, pool txids, fees) at the last strong-clause check: unchanged state is not re-validated
 
     bool PoolHasSensitive(const PoolSnap& snap)
     {
@@ -57,6 +60,14 @@ struct Hist {
         for (const auto& t : *topo) all.push_back(m.txs.at(t));
         const std::string verdict = ms.ModelNextBlockVerdict(all);
         VCHECK(verdict.empty(), "c22.model-next-block", where, "a pool transaction is not valid for the next block by the model:", verdict, "tip height", snap.tip_height);
+        {
+            HashWriter hw;
+            hw << snap.tip;
+            for (const auto& [id, e] : snap.entries) hw << e.tx->GetWitnessHash().ToUint256() << e.fee;
+            const uint256 key = hw.GetHash();
+            if (key == last_block_check_key) return;
+            last_block_check_key = key;
+        }
         st.steps++;
         for (const CBlock& b : ms.WholePoolBlocks(snap)) {
             const BlockValidationState bs = ms.sim().TestValidity(b);
@@ -104,6 +115,8 @@ VERIF_TARGET(c22_mempool_history, nullptr, 140, 2200,
     Hist h{ms, st};
     st.mix(uint64_t(cfg * 4 + cfg2));
     Note(st, "cfg ", kCount[cfg], " cfg2=", cfg2);
+    // a few blocks above the funding block so that reorgs of depth 1-3 are possible from the first op on
+    for (int i = 0; i < 3; ++i) ms.MineTxs({});
     h.CheckAll("start");
 
     const unsigned nops = s.range<unsigned>(6, 48);
